@@ -28,13 +28,14 @@ Speeds speeds(bool full) { return full ? Speeds{kSpeedsThorough, 7} : Speeds{kSp
 
 // ------------------------------------------------------------------ S1
 void add_s1(mc::Runner &R, const std::string &name, const std::vector<Topo> *topos, std::vector<int> isolated,
-            std::vector<int> poskinds, bool full_speeds, bool quick, bool thorough) {
+            std::vector<int> poskinds, bool full_speeds, bool quick, bool thorough, bool both_apis = false) {
   const Speeds sp = speeds(full_speeds);
-  mc::Radix rx{(uint64_t)sp.n, 5, (uint64_t)poskinds.size(), (uint64_t)isolated.size(), (uint64_t)topos->size()};
+  mc::Radix rx{(uint64_t)sp.n, 5, (uint64_t)poskinds.size(), (uint64_t)isolated.size(), (uint64_t)topos->size(), (uint64_t)(both_apis ? 2 : 1)};
   auto make = [=](uint64_t idx, GeomDef *g, EncCfg *c) {
     auto d = rx.decode(idx);
     *g = gs::s1_mesh((*topos)[d[4]], isolated[d[3]], (gs::PosKind)poskinds[d[2]]);
     *c = gs::mesh_cfg((int)d[1], sp.v[d[0]]);
+    c->use_plain_encoder = d[5] == 1;
     c->qbits = {poskinds[d[2]] == gs::POS_F32_Q ? 11 : 0};
   };
   mc::Space s;
@@ -328,9 +329,10 @@ void add_s4(mc::Runner &R, const std::string &name, int max_n, std::vector<int> 
     for (int i = 0; i < n; ++i) p *= 3;
     total += p;
   }
-  mc::Radix rx{(uint64_t)speeds.size(), 3, 5, 7, total};
+  mc::Radix rx{(uint64_t)speeds.size(), 3, 5, 7, total, 2};
   auto make = [=](uint64_t idx, GeomDef *g, EncCfg *c) {
     auto d = rx.decode(idx);
+    c->use_plain_encoder = d[5] == 1;
     int n = max_n;
     while (off[n] > d[4]) --n;
     uint64_t asg = d[4] - off[n];
@@ -528,7 +530,7 @@ int main(int argc, char **argv) {
 
   if (!asan) {
     // -O2 build: the large products
-    add_s1(R, "S1_F2", &g_topos_f2, {0, 1, 2}, {0, 1, 2, 3}, true, true, true);
+    add_s1(R, "S1_F2", &g_topos_f2, {0, 1, 2}, {0, 1, 2, 3}, true, true, true, true);
     add_s1(R, "S1_F3ids4", &g_topos_f3i4, {0, 1, 2}, {0, 1, 2, 3}, false, true, false);
     add_s1(R, "S1_F3", &g_topos_f3, {0, 1, 2}, {0, 1, 2, 3}, true, false, true);
     add_s1(R, "S1_F4", &g_topos_f4, {0}, {1, 2}, true, false, true);
@@ -537,7 +539,7 @@ int main(int argc, char **argv) {
     add_s2(R, "S2_named", &g_s2_named, {1, 2}, {0, 1, 2}, {0, 2, 3}, false, false, true);
   } else {
     // ASan+UBSan build: the same enumerations at smaller bounds
-    add_s1(R, "asan_S1_F2", &g_topos_f2, {0, 1, 2}, {0, 1, 2, 3}, false, true, true);
+    add_s1(R, "asan_S1_F2", &g_topos_f2, {0, 1, 2}, {0, 1, 2, 3}, false, true, true, true);
     add_s1(R, "asan_S1_F3ids4", &g_topos_f3i4, {0}, {1, 2}, false, false, true);
     add_s2(R, "asan_S2_F2_quick", &g_s2_small, {1}, {0}, {2}, false, true, false, true);
     add_s2(R, "asan_S2_F2", &g_s2_small, {1, 2}, {0, 1, 2}, {0, 2, 3}, false, false, true);
